@@ -557,7 +557,7 @@ func VerifC16InGtx() {
 	c18WantNull = c18NullTemplate(st.name)
 	w := c18Setup(st.composite, c18AutoKey(st.name))
 	// the twin
-	twin := &aDB{table: w.d.table, cols: w.d.cols, pk: w.d.pk, auto: w.d.auto, failAt: -1, nextAuto: w.d.nextAuto}
+	twin := &aDB{table: w.d.table, cols: w.d.cols, pk: w.d.pk, nullable: w.d.nullable, auto: w.d.auto, failAt: -1, nextAuto: w.d.nextAuto}
 	for _, r := range w.d.rows {
 		twin.rows = append(twin.rows, r.clone())
 	}
@@ -623,7 +623,7 @@ func VerifC16LockingRead() {
 	w := c18Setup(false)
 	w.lockable = true
 	at.LockConfig = rm.LockConfig{RetryInterval: 10 * time.Millisecond, RetryTimes: 2}
-	twin := &aDB{table: w.d.table, cols: w.d.cols, pk: w.d.pk, auto: w.d.auto, failAt: -1, nextAuto: w.d.nextAuto}
+	twin := &aDB{table: w.d.table, cols: w.d.cols, pk: w.d.pk, nullable: w.d.nullable, auto: w.d.auto, failAt: -1, nextAuto: w.d.nextAuto}
 	for _, r := range w.d.rows {
 		twin.rows = append(twin.rows, r.clone())
 	}
